@@ -165,6 +165,20 @@ func posOf(n ast.Node) token.Pos {
 	if n == nil {
 		return token.NoPos
 	}
+	switch x := n.(type) {
+	case *ast.CallExpr:
+		if x == nil {
+			return token.NoPos
+		}
+	case *ast.AssignStmt:
+		if x == nil {
+			return token.NoPos
+		}
+	case *ast.RangeStmt:
+		if x == nil {
+			return token.NoPos
+		}
+	}
 	return n.Pos()
 }
 
